@@ -8,10 +8,34 @@ KINDS = ["pattern", "pattern", "insert", "gcwin", "gcwin", "gcglobal", "cds", "c
          "kmers", "hairpin", "regex"]
 
 
+def long_gc_case(rng):
+    """a windowed GC specification over a span holding exactly 255 G/C (every window well inside the bounds); the edit
+    turns one A/T of the window into a G: the 256th"""
+    unit = "".join(rng.sample("GGCA" if rng.random() < 0.5 else "GCCT", 4))
+    seq = unit * 85
+    n = len(seq)
+    w = rng.choice([10, 20, 50])
+    d = dict(kind="gcwin", mini=rng.choice([0.3, 0.4]), maxi=rng.choice([0.9, 0.95, 1.0]), window=w, location=None)
+    pos = rng.choice([i for i, c in enumerate(seq) if c in "AT"])
+    a = max(0, pos - rng.randint(0, 6))
+    b = min(n, pos + 1 + rng.randint(0, 6))
+    t = seq[:pos] + "G" + seq[pos + 1:]
+    return dict(sequence=seq, spec=d, window=[a, b], wstrand=0, rh="-", edited=t)
+
+
 def rand_case(rng, kinds=None, nmin=6, nmax=30):
+    if (kinds is None or "gcwin" in kinds) and rng.random() < 0.01:
+        return long_gc_case(rng)
     n = rng.randint(nmin, nmax)
     seq = hard.rand_seq(rng, n)
     d = bspec.rand_spec_desc(rng, seq, kinds or KINDS)
+    if d["kind"] == "gcwin" and rng.random() < 0.12:
+        # a long, GC-rich sequence: more than 255 G/C inside the specification's span
+        n = rng.randint(330, 420)
+        seq = "".join(rng.choice("GGGCCCAT") for _ in range(n))
+        w = rng.choice([10, 20, 50])
+        d = dict(kind="gcwin", mini=rng.choice([0.3, 0.4]), maxi=rng.choice([0.9, 0.95, 1.0]), window=w,
+                 location=None if rng.random() < 0.6 else [rng.randint(0, 10), n - rng.randint(0, 10), rng.choice([0, 1])])
     if d["kind"] == "kmers" and d.get("location") and rng.random() < 0.3:
         d["location"][2] = -1
     # window: inside / straddling / outside the specification's span
